@@ -4,9 +4,9 @@ import json, os, shutil, glob, re
 import sys
 S='/tmp/seedwork'; D='/verif/seeded'
 ROUND=sys.argv[1] if len(sys.argv)>1 else '1'
-RES={'1':'results','2':'results2','3':'results3','4':'results4f','5':'results5f'}[ROUND]
-OUTP={'1':'out-','2':'out2-','3':'out3-','4':'out4-','5':'out5-'}[ROUND]
-PFX={'1':'','2':'r2-','3':'r3-','4':'r4-','5':'r5-'}[ROUND]
+RES={'1':'results','2':'results2','3':'results3','4':'results4f','5':'results5f','6':'results6'}[ROUND]
+OUTP={'1':'out-','2':'out2-','3':'out3-','4':'out4-','5':'out5-','6':'out6-'}[ROUND]
+PFX={'1':'','2':'r2-','3':'r3-','4':'r4-','5':'r5-','6':'r6-'}[ROUND]
 EXTRA=json.load(open(f'{S}/extra{ROUND}.json')) if os.path.exists(f'{S}/extra{ROUND}.json') else {}
 rows=[]
 for rf in sorted(glob.glob(f'{S}/{RES}/C*-*.json')):
